@@ -14,9 +14,9 @@ for s in $NAMES; do
   ID=${s%%-*}
   if ! git -C $WT apply /verif/$P 2>/dev/null; then echo "$s check=$ID patch=$(basename $P) DOES-NOT-APPLY" >> $OUT; continue; fi
   S=$(date +%s)
-  VERIF_REPO=$WT ./check $ID --tier quick > /tmp/matrix_$$.out 2>&1; RC=$?
+  VERIF_EVIDENCE_DIR=/tmp/matrix_evidence_$$ VERIF_REPO=$WT ./check $ID --tier quick > /tmp/matrix_$$.out 2>&1; RC=$?
   git -C $WT checkout -- . ; git -C $WT clean -fdq
   echo "$s check=$ID patch=$(basename $P) exit=$RC violations=$(grep -c '^VIOLATION' /tmp/matrix_$$.out) wall=$(( $(date +%s) - S ))s first=$(grep -m1 -A1 '^VIOLATION' /tmp/matrix_$$.out | tail -1 | cut -c1-160)" >> $OUT
 done
 git -C /repo worktree remove --force $WT
-rm -f /tmp/matrix_$$.out
+rm -rf /tmp/matrix_$$.out /tmp/matrix_evidence_$$
